@@ -6,7 +6,7 @@ From Celer Require Import Base.Num Base.NumR Base.Vec3 C01.LedgerModel C01.Ledge
 Import ListNotations.
 Local Open Scope R_scope.
 
-(** the allocation-failure witness (finding F5) *)
+(** the allocation-failure witness (finding F5): the [fixed = false] variant of the branch *)
 Definition f5_state : sim R :=
   mkSim 0 (V3 0 0 0) (V3 1 0 0) (Some 0%nat) 0 AOther Alive 0 1 0 false 0 [] 1.
 Definition f5_input : sinput R :=
@@ -36,7 +36,7 @@ Proof.
 Qed.
 
 Lemma f5_post :
-  post_actions f5_input
+  post_actions false f5_input
     (mkSim (0 + 1 / 1) (V3 (1 * 1 + 0) (1 * 0 + 0) (1 * 0 + 0)) (V3 1 0 0) (Some 0%nat) 1 ADiscrete
           Alive 1 1 0 false 0 [] 1)
   = mkSim (0 + 1 / 1) (V3 (1 * 1 + 0) (1 * 0 + 0) (1 * 0 + 0)) (V3 1 0 0) (Some 0%nat) 0 AFailure
@@ -52,7 +52,7 @@ Theorem step_ge_displacement_refuted :
   exists (i : sinput R) (s : sim R),
     mstat s = Alive /\ dot (mdir s) (mdir s) = 1 /\ 0 < in_next i /\ 0 < in_phys_step i
     /\ 0 < mE s /\ iact (in_inter i) = IFailed
-    /\ let '(pre, _, s1) := one_step i s in
+    /\ let '(pre, _, s1) := one_step false i s in
        mstep s1 = 0 /\ mstep s1 < distance (ppos pre) (mpos s1) /\ 0 < pE pre
        /\ mstat s1 = Alive.
 Proof.
@@ -66,6 +66,19 @@ Proof.
   replace (0 + (1 * 1 + 0 - 0) * (1 * 1 + 0 - 0) + (1 * 0 + 0 - 0) * (1 * 0 + 0 - 0)
            + (1 * 0 + 0 - 0) * (1 * 0 + 0 - 0)) with 1 by ring.
   rewrite sqrt_1. lra.
+Qed.
+
+(** the same witness on the repaired branch: the step length is kept *)
+Lemma f5_post_fixed :
+  post_actions true f5_input
+    (mkSim (0 + 1 / 1) (V3 (1 * 1 + 0) (1 * 0 + 0) (1 * 0 + 0)) (V3 1 0 0) (Some 0%nat) 1 ADiscrete
+          Alive 1 1 0 false 0 [] 1)
+  = mkSim (0 + 1 / 1) (V3 (1 * 1 + 0) (1 * 0 + 0) (1 * 0 + 0)) (V3 1 0 0) (Some 0%nat) 1 AFailure
+          Alive 1 1 0 false 0 [] 0.
+Proof.
+  unfold post_actions, discrete_select, f5_input. psimp.
+  unfold interact_act. psimp. unfold interaction_apply. psimp.
+  unfold boundary_act. psimp. unfold tracking_cut_act. psimp. reflexivity.
 Qed.
 
 (** hypotheses of the positive theorems are satisfiable: same state, an
